@@ -1371,3 +1371,116 @@ def check_required_steps(ck, rule, prog, body, steps):
             continue
         skip = success_path_avoiding(body, blocks)
         ck.ob(rule, "required-step/%s/%s" % (body.short, label), not skip, "%s %s" % (body.short, ("performs `%s` on every path that succeeds" % label) if not skip else ("can return successfully WITHOUT `%s` (an early return or a guard skips it)" % label)), where=body.where())
+
+
+# ---------------------------------------------------------------------------------------------------------------
+# exact truth table of a boolean function body (predicate closure) over its atomic comparisons
+
+EQ_METHODS = {"eq": ("Eq", False), "ne": ("Eq", True), "lt": ("Lt", False), "ge": ("Lt", True), "gt": ("Gt", False), "le": ("Gt", True)}
+EQ_BINOPS = {"Eq": ("Eq", False), "Ne": ("Eq", True), "Lt": ("Lt", False), "Ge": ("Lt", True), "Gt": ("Gt", False), "Le": ("Gt", True)}
+
+
+def bool_table(body, atom_key, max_paths=4096):
+    """Enumerate the paths of a loop-free boolean body.  Atomic predicates are comparison calls / binary comparisons;
+    `atom_key(kind, lhs_operand, rhs_operand, body)` names one (hashable) or returns None (unknown -> whole table undecided).
+    kind is the positive comparison ('Eq' | 'Lt' | 'Gt'); negated forms (ne, ge, le) are folded into the polarity.
+    Returns a list of (assignment {key: bool}, result) with result True | False | ('atom', key, negated), or None when the body
+    is not a recognisable pure predicate (loop, unknown call, switch on a non-boolean)."""
+    if body.natural_loops():
+        return None
+    rows = []
+    budget = [max_paths]
+
+    def val_of(env, op):
+        if op.kind == "const":
+            v = op.int_value()
+            return ("c", bool(v)) if v is not None else None
+        if op.place is not None and op.place.is_local():
+            return env.get(op.place.local)
+        return None
+
+    def walk(bi, env, asg):
+        budget[0] -= 1
+        if budget[0] < 0:
+            raise OverflowError
+        blk = body.blocks[bi]
+        env = dict(env)
+        for st in blk.stmts:
+            if st.k != "assign" or not st.place.is_local():
+                continue
+            rv = st.rv
+            l = st.place.local
+            if rv["k"] == "use":
+                env[l] = val_of(env, rv["op"])
+            elif rv["k"] == "un" and rv["op"] == "Not":
+                v = val_of(env, rv["o"])
+                env[l] = None if v is None else (("c", not v[1]) if v[0] == "c" else ("a", v[1], not v[2]))
+            elif rv["k"] == "bin" and rv["op"] in EQ_BINOPS:
+                kind, neg = EQ_BINOPS[rv["op"]]
+                k = atom_key(kind, rv["l"], rv["r"], body)
+                env[l] = None if k is None else ("a", k, neg)
+            else:
+                env[l] = None
+        t = blk.term
+        if t.k == "call":
+            c = t.callee
+            if c.trait in ("std::cmp::PartialEq", "std::cmp::PartialOrd") and c.method in EQ_METHODS and len(t.args) == 2 and t.dest is not None and t.dest.is_local():
+                kind, neg = EQ_METHODS[c.method]
+                k = atom_key(kind, t.args[0], t.args[1], body)
+                env[t.dest.local] = None if k is None else ("a", k, neg)
+            elif t.dest is not None and t.dest.is_local():
+                env[t.dest.local] = None
+            if t.target is None:
+                return
+            walk(t.target, env, asg)
+        elif t.k == "goto" or t.k == "drop" or t.k == "assert" or t.k == "falseedge":
+            if t.target is not None:
+                walk(t.target, env, asg)
+        elif t.k == "switch":
+            v = val_of(env, t.discr)
+            if v is None:
+                raise ValueError("switch on an unrecognised value at line %s" % t.line)
+            zero = [tg for val, tg in t.targets if val == 0]
+            if len(t.targets) != 1 or not zero:
+                raise ValueError("non-boolean switch at line %s" % t.line)
+            f_tg, t_tg = zero[0], t.otherwise
+            if v[0] == "c":
+                walk(t_tg if v[1] else f_tg, env, asg)
+            else:
+                _, k, neg = v
+                for truth in (True, False):
+                    # truth of the switched VALUE; the atom itself is truth ^ neg
+                    a = truth != neg
+                    if k in asg and asg[k] != a:
+                        continue
+                    na = dict(asg)
+                    na[k] = a
+                    walk(t_tg if truth else f_tg, env, na)
+        elif t.k == "return":
+            r = env.get(0)
+            if r is None:
+                raise ValueError("returned value not recognised")
+            rows.append((asg, r[1] if r[0] == "c" else ("atom", r[1], r[2])))
+        elif t.k == "unreachable":
+            return
+        else:
+            raise ValueError("terminator %s" % t.k)
+
+    try:
+        walk(0, {}, {})
+    except (ValueError, OverflowError, RecursionError):
+        return None
+    return rows
+
+
+def eval_bool_table(rows, full):
+    """value of the predicate under the total assignment `full` ({key: bool}); None if no path matches"""
+    for asg, r in rows:
+        if all(full.get(k) == v for k, v in asg.items()):
+            if r is True or r is False:
+                return r
+            _, k, neg = r
+            if k not in full:
+                return None
+            return full[k] != neg
+    return None
